@@ -84,7 +84,9 @@ def piece(rng, depth=0):
                 lines.append(ind + "increment cnt")
             else:
                 lines.append("")
-        return tag(rng, "liquid" + ("\n" + "\n".join(lines) if lines else ""))
+        # lines of a liquid tag end in LF or (one tag in three) CRLF: offsets of the inner tokens must count the carriage returns
+        sep = rng.choice(["\n", "\n", "\r\n"])
+        return tag(rng, "liquid" + (sep + sep.join(lines) if lines else ""))
     if r < 0.78:
         return tag(rng, rng.choice(["render 'p', pv: " + rng.choice(VARS), "include 'q'", "render 'q', qc: true, qd: x.y"]))
     if r < 0.83 and depth < 2:
